@@ -94,11 +94,12 @@ Definition sanitize_union (children : list ssel) (cond odef : string) : list sse
   if cond =? odef then inner else [SanFrag cond odef inner].
 
 (* sanitizeInterfaceInlineFragment: a fragment on one of the interface's possible types stays; any other one is copied
-   into one fragment per possible type — each copy holding what the selection set held when it was made *)
+   into one fragment per possible type, each holding the fragment's fields (before the fix each copy held what the
+   selection set held when it was made, earlier copies included: `... on N1 { ... on N0 { } }`, which no service accepts) *)
 Definition sanitize_iface (sc : sschema) (children : list ssel) (cond odef : string) : list ssel :=
   let pts := possible_of sc odef in
   if smem cond pts then [SanFrag cond odef children]
-  else fold_left (fun acc pt => add_to_result acc [SanFrag pt pt acc]) pts children.
+  else fold_left (fun acc pt => add_to_result acc [SanFrag pt pt children]) pts children.
 
 (* setMissingScrubFieldsForFieldSelectionSet *)
 Definition set_missing (sc : sschema) (ip : list string) (alias ty : string) (sel : list ssel) (s : scrub) (added : list string) : scrub :=
@@ -108,6 +109,14 @@ Definition set_missing (sc : sschema) (ip : list string) (alias ty : string) (se
                | KOther => sc_set acc (path, ty, f)
                | _ => (* objects of a type keep the field if the client selected it in the fragment on that type *)
                       fold_left (fun acc' pt => sc_set acc' (path, pt, f)) (filter (fun pt => negb (frag_has sel pt f)) (possible_of sc ty)) acc
+               end) added s.
+
+(* the registration of what was added to a fragment's selection *)
+Definition set_frag (sc : sschema) (ip : list string) (c : string) (s : scrub) (added : list string) : scrub :=
+  fold_left (fun acc' f =>
+               match kind_of sc c with
+               | KOther => sc_set acc' (ip, c, f)
+               | _ => fold_left (fun a pt => sc_set a (ip, pt, f)) (possible_of sc c) acc'
                end) added s.
 
 (* the closing loop of sanitizeSelectionSet: helpers the client selected himself on this level are not scrubbed *)
@@ -143,7 +152,9 @@ Fixpoint san_sel (tm : tmap) (sc : sschema) (ip : list string) (s : ssel) (acc :
       let sf := unset_level sub ip sf in
       let scr1 := sc_merge scr sf in
       let '(child', added) := add_scrub_fields tm sc child c in
-      let scr2 := fold_left (fun acc' f => sc_set acc' (ip, c, f)) added scr1 in
+      (* helpers added for an abstract type condition are registered for every type an object can have (since the fix:
+         before, under the condition's own name, which no object carries) *)
+      let scr2 := set_frag sc ip c scr1 added in
       match kind_of sc o with
       | KIface => (add_to_result result (sanitize_iface sc child' c o), scr2)
       | KUnion => (add_to_result result (sanitize_union child' c o), scr2)
